@@ -67,13 +67,18 @@ class Shapes(object):
         _N[0] += 1
         uid = "%s_%d" % (tag, _N[0])
         names = ["RED", "GREEN", "BLUE", "DARK_GREY", "X1"][:r.randint(2, 5)]
-        kind = r.choice(["int", "str", "str-crossed"])
+        kind = r.choice(["int", "str", "str-crossed", "float", "tuple"])
         # member values include the falsy ones (0, "") - an enum member is a value like any other; in the "crossed" kind the VALUE
         # of a member is the NAME of another member (NORTH = "SOUTH", SOUTH = "NORTH"): JSON carries names, never values
         if kind == "str-crossed":
             vals = {nm: names[(i + 1) % len(names)] for i, nm in enumerate(names)}
+        elif kind == "float":
+            vals = {nm: i * 0.5 - 0.5 for i, nm in enumerate(names)}                # (scale factors: -0.5, 0.0, 0.5, ...)
+        elif kind == "tuple":
+            vals = {nm: (i - 1, 1 - i) for i, nm in enumerate(names)}                # (direction vectors)
         else:
             vals = {nm: (i * 3 if kind == "int" else ("v%d" % i if i else "")) for i, nm in enumerate(names)}
+        self.enum_kind = kind
         self.Enum = type("JE" + uid, (SerializableEnum,), vals)
         self.enum_members = [getattr(self.Enum, nm) for nm in names]
         self.Leaf = type("JL" + uid, (Serializable,), {"__annotations__": {"n": int, "s": str}, "n": 0, "s": ""})
@@ -233,6 +238,23 @@ def run_shard(cfg):
     r = rng("C15", cfg["seed"], cfg["shard"])
     c = Counter()
     violations, samples, distinct = [], [], set()
+    if cfg["shard"] % 3 == 1:
+        # a developer with the library's logger turned up to DEBUG (or its own TRACE) and a handler that formats every record:
+        # what the library logs about a value does not change what it makes of it
+        import logging
+
+        class FormatSink(logging.Handler):
+            def emit(self, record):
+                c.inc("log_records_formatted")
+                try:
+                    self.format(record)
+                except Exception:
+                    c.inc("log_records_failed_to_format")
+        lg_ = logging.getLogger("mpgameserver")
+        lg_.setLevel(logging.DEBUG if cfg["shard"] % 2 else 9)
+        lg_.propagate = False
+        lg_.addHandler(FormatSink())
+        c.inc("shards_with_debug_logging")
 
     def viol(mech, msg, case):
         c.inc("viol:" + mech)
